@@ -32,13 +32,17 @@ Fixpoint has_dup (l : list uuid) : bool :=
 (* --- typing of a document against the index schema (the dispatcher's casts) --- *)
 Definition all_str (l : list value) : bool := forallb (fun v => match v with VStr _ => true | _ => false end) l.
 Definition all_f32 (l : list value) : bool := forallb (fun v => match v with VF32 _ => true | _ => false end) l.
+(* a term of a string or string-array index becomes a key of the index bucket; the file store refuses the
+   empty key when the index is flushed, which fails the whole batch inside the transaction. (The in-memory
+   store accepts it; the harness generates such values on file stores only.) *)
+Definition key_str (v : value) : bool := match v with VStr [] => false | VStr _ => true | _ => false end.
 Definition type_ok (i : idx) (v : value) : bool :=
   match i, v with
   | IInt, VInt _ => true
   | IFloat, VF64 _ => true
-  | IStr _, VStr _ => true
+  | IStr _, v => key_str v
   | IText, VStr _ => true
-  | IStrArr _, VArr l => all_str l
+  | IStrArr _, VArr l => all_str l && forallb key_str l
   | IFlat _ _ _, VArr l => all_f32 l
   | IVamana _ _ _ _ _ _, VArr l => all_f32 l
   | _, _ => false
